@@ -44,9 +44,9 @@ func (o JObj) Set(k string, v any) JObj {
 }
 
 type JWriter struct {
-	rng    *Rng // nil: compact, minimal escapes
-	sb     strings.Builder
-	fancy  bool
+	rng   *Rng // nil: compact, minimal escapes
+	sb    strings.Builder
+	fancy bool
 }
 
 func (w *JWriter) ws() {
